@@ -31,7 +31,14 @@ def inc_flags():
 
 
 def sh(cmd, **kw):
-    r = subprocess.run(cmd, capture_output=True, text=True, **kw)
+    # a tool that dies by a signal / prints an LLVM stack dump (seen sporadically with opt-14 under heavy parallel load) is retried;
+    # ordinary failures (compile errors) are not
+    for attempt in range(3):
+        r = subprocess.run(cmd, capture_output=True, text=True, **kw)
+        crashed = r.returncode < 0 or r.returncode in (134, 135, 136, 139) or "Stack dump" in r.stderr or "PLEASE submit a bug report" in r.stderr
+        if r.returncode == 0 or not crashed:
+            break
+        time.sleep(1 + attempt)
     if r.returncode != 0:
         raise RuntimeError("command failed: %s\n%s\n%s" % (" ".join(cmd), r.stdout[-4000:], r.stderr[-4000:]))
     return r
